@@ -10,6 +10,7 @@ from ..common import (trait_impls, short, len_base, slice_base, strip_casts, SOC
 from . import tables
 
 EXPLANATION = __doc__
+WITNESS = ['C07']
 NOT_DECIDED = "byte-for-byte equality of encode/decode for every message (value-level round trip)"
 ASSUMPTIONS = ["bytes::BufMut::put_u8/put_u32/put_u64 write 1/4/8 bytes big-endian; extend_from_slice(x) writes len(x) bytes",
                "asynchronous-codec calls Encoder::encode once per item and Decoder::decode until Ok(None)"]
@@ -21,6 +22,7 @@ RULES = {
     "R01.5": "command: declared length = sum of bytes written after the header, name/property layout 1+n / 1+n+4+m",
     "R01.6": "greeting: 64 bytes, [0]=0xFF [9]=0x7F [10],[11]=version [12..]=mechanism [32]=as_server; default version (3,0); reader uses the same offsets",
     "R01.7": "READY carries Socket-Type = as_str(local type); Identity added iff configured; name tables writer = reader = RFC",
+    "R01.8": "decoder side of the round trip: typestate table, accumulator kept in the codec, no stall (C02 R02.1-R02.3 re-evaluated)",
 }
 
 WRITE_SIZES = {"put_u8": 1, "put_i8": 1, "put_u16": 2, "put_u16_le": 2, "put_u32": 4, "put_u32_le": 4, "put_u64": 8,
@@ -54,8 +56,9 @@ def truth_of(p, expr):
     return None
 
 
-def more_normal_form(e):
-    """Is e one of the accepted forms of `idx is not the last index`? returns (ok, text)."""
+def more_normal_form(e, ordinal=None):
+    """Is e one of the accepted forms of `idx is not the last index`? returns (ok, text).
+    `ordinal`: position of this frame among the frames written on the path - a hand-kept counter folds to that constant."""
     e = strip_casts(e)
     if e[0] != "binop":
         # peekable().peek().is_some()
@@ -71,6 +74,8 @@ def more_normal_form(e):
 
     def is_idx(x):
         x = strip_casts(x)
+        if ordinal is not None and x == ("int", ordinal):
+            return True
         # field .0 of an Enumerate::next() item, or a counter local
         for y in walk_expr(x):
             if isinstance(y, tuple) and y and y[0] in ("call", "pure") and short(y[1]) == "next":
@@ -83,6 +88,8 @@ def more_normal_form(e):
 
     def plus1(x):
         x = strip_casts(x)
+        if ordinal is not None and x == ("int", ordinal + 1):
+            return True
         return x[0] == "binop" and x[1] == "Add" and is_idx(x[2]) and x[3] == ("int", 1)
 
     forms = [
@@ -126,7 +133,7 @@ def check_encoder(f, rep):
                 if e.kind == "call" and e.extra == "inlined" and e.args and len(e.args) >= 3 and e.args[1] == dst:
                     cur = {"more": e.args[2], "call": e, "ws": []}
                     groups.append(cur)
-                    more_exprs[show(e.args[2])] = (e.args[2], e)
+                    more_exprs[show(e.args[2])] = (e.args[2], e, len(groups) - 1)
                 elif e in ws:
                     if cur is None:
                         cur = {"more": None, "call": None, "ws": []}
@@ -186,8 +193,8 @@ def check_encoder(f, rep):
         rep.floor("R01.1", "message-frame flag combinations reached (more x long)", len(flagvals), 4)
         rep.floor("R01.2", "size writers seen (put_u8, put_u64)", len(widths), 2)
         rep.floor("R01.3", "MORE argument expression", len(more_exprs), 1)
-        for txt, (e, ev) in more_exprs.items():
-            ok, t = more_normal_form(e)
+        for txt, (e, ev, ordinal) in more_exprs.items():
+            ok, t = more_normal_form(e, ordinal)
             rep.check(ok, "R01.3", "R01.3|%s|more-normal-form" % enc.path,
                       "MORE argument `%s` is %sa normal form of `frame index is not the last`" % (t, "" if ok else "NOT "),
                       "%s bb%d" % (ev.fnpath, ev.bb))
@@ -220,10 +227,11 @@ def canon(e):
 def show_canon(e):
     if not isinstance(e, tuple) or not e:
         return str(e)
-    if e[0] == "call":
-        return "%s(%s)" % (short(e[1]), ",".join(show_canon(a) for a in e[2]))
-    if e[0] == "pure":
-        return "%s(%s)" % (short(e[1]), ",".join(show_canon(a) for a in e[2]))
+    if e[0] in ("call", "pure"):
+        n = short(e[1])
+        if n in ("iter", "into_iter", "iter_mut", "by_ref", "as_ref", "as_bytes", "as_str", "deref", "borrow") and e[2]:
+            return show_canon(e[2][0])       # views / iterator adaptors over the same collection
+        return "%s(%s)" % (n, ",".join(show_canon(a) for a in e[2]))
     if e[0] in ("ref", "deref", "cast"):
         return show_canon(e[1])
     if e[0] == "field":
@@ -434,20 +442,7 @@ def check_greeting(f, rep):
             break
 
 
-def mask_of(e):
-    """K if e is a normal form of `(x & K) != 0`; ("inv", K) for `(x & K) == 0`."""
-    e = strip_casts(e)
-    inv = False
-    while e[0] == "unop" and e[1] == "Not":
-        inv = not inv
-        e = e[2]
-    if e[0] == "binop" and e[1] in ("Ne", "Eq", "Gt") and e[3] == ("int", 0) and e[2][0] == "binop" and e[2][1] == "BitAnd" and e[2][3][0] == "int":
-        if e[1] == "Eq":
-            inv = not inv
-        return ("inv", e[2][3][1]) if inv else e[2][3][1]
-    if e[0] == "binop" and e[1] == "Eq" and e[2][0] == "binop" and e[2][1] == "BitAnd" and e[2][3][0] == "int" and e[3] == e[2][3]:
-        return ("inv", e[3][1]) if inv else e[3][1]
-    return None
+from ..common import mask_of
 
 
 def arm_blocks(body, entry, other):
@@ -456,69 +451,85 @@ def arm_blocks(body, entry, other):
 
 
 def check_decoder(f, rep):
+    """Reader side of the flag table, from the abstract interpretation of the decoder's state machine (shared with C03):
+    every effect of a decoding step is related to the header bits whose truth is known on that path - decided in this step or
+    carried over from the step that read the flags. Private helpers are looked through; nothing depends on field names."""
+    from . import c03
+    from .c02 import decoder_roles
     decs = trait_impls(f, "asynchronous_codec::Decoder", "decode")
     rep.floor("R01.1", "Decoder::decode impl of the codec", len(decs), 1)
     for self_ty, dec in decs.items():
-        # step 1: header struct: field index -> mask
-        field_mask = {}
-        hdr_adt = None
-        for blk in dec.blocks:
-            for st in blk["stmts"]:
-                if st["k"] == "assign" and st["rv"]["k"] == "aggregate" and st["rv"]["ak"] == "adt":
-                    ms = [mask_of(dec.expr_of_operand(o)) for o in st["rv"]["ops"]]
-                    if ms and all(m is not None for m in ms):
-                        hdr_adt = st["rv"]["adt"]
-                        for i, m in enumerate(ms):
-                            field_mask[i] = m
-        rep.floor("R01.1", "header fields derived from flag masks", len(field_mask), 3)
-        # step 2: classify every switch on a header field / mask expression by what its arms do
+        roles_ = decoder_roles(f, self_ty)
+        try:
+            paths, states = c03.decoder_paths(f, dec, self_ty)
+        except PathExplosion as e:
+            paths, states = None, None
+        if not paths or roles_ is None:
+            rep.bad("R01.1", "R01.1|%s|decoder-states" % dec.path, "decoder state machine could not be evaluated (anchor-missing)", dec.loc())
+            continue
+        rep.count("decoder_step_paths", len(paths))
+        occ = {}      # effect -> list of {K: truth} known on the path where it happens
+        masks_seen = set()
+        for p in paths:
+            if p.end not in ("return", "stop"):
+                continue
+            known = dict(p.abstract_in[2]) if getattr(p, "abstract_in", None) else {}
+            for (e, c, _, _) in p.conds:
+                tr = c[1] if c[0] == "eq" else (1 if c == ("notin", (0,)) else (0 if c == ("notin", (1,)) else None))
+                if tr is None:
+                    continue
+                if e[0] == "flag":
+                    known[e[1]] = bool(tr)
+                else:
+                    m = mask_of(e)
+                    if m is not None:
+                        if isinstance(m, tuple):
+                            known[m[1]] = not bool(tr)
+                        else:
+                            known[m] = bool(tr)
+            masks_seen |= set(known)
+            effs = set()
+            for ev in p.events:
+                if ev.kind == "store" and ev.place.endswith("." + roles_["counter"]) and ev.value in (("int", 8), ("int", 1)):
+                    # only the width announced right after the flags byte: the path also read the flags in this step
+                    if any(e2.kind == "call" and short(e2.name) == "get_u8" for e2 in p.events[:p.events.index(ev)]) and p.abstract_in[0][3] != roles_["enum"]["variants"][-1]["name"]:
+                        if any(x[0] == "flag" or mask_of(x) is not None for (x, c2, _, _) in p.conds):
+                            effs.add("wait%d" % ev.value[1])
+                if ev.kind == "call" and ev.extra != "inlined":
+                    n = short(ev.name)
+                    # a size read = a wire read whose value becomes the counter
+                    if n in ("get_u64", "get_u64_le", "get_u32", "get_u16", "get_uint", "get_u8", "get_i64"):
+                        cv = p.cell(("arg", 1), roles_["counter"])
+                        if cv is not None and any(y == ev.result for y in walk_expr(cv)):
+                            effs.add("get_u64" if n == "get_u64" else ("get_u8_size" if n == "get_u8" else "size_read:" + n))
+                    if n == "try_from" and "ZmqCommand" in ev.name:
+                        effs.add("command_parse")
+                    if n in ("take", "replace") and ev.args and any(isinstance(x, tuple) and x and x[0] == "field" and x[2] == roles_["acc"] for x in walk_expr(ev.args[0])):
+                        effs.add("yield_message")
+            for ef in effs:
+                occ.setdefault(ef, []).append(dict(known))
+        rep.floor("R01.1", "header bits tested by the decoder", len(masks_seen), 3)
         roles = {}
-        for bb in sorted(dec.reachable(0)):
-            t = dec.term(bb)
-            if t["k"] != "switch" or t["op"]["k"] == "const":
-                continue
-            k = None
-            pl = t["op"]["place"]
-            e = dec.expr_of_operand(t["op"])
-            m = mask_of(e)
-            if m is not None:
-                k = m
-            else:
-                # a field of the header struct, possibly copied through a temp
-                for x in walk_expr(e):
-                    if isinstance(x, tuple) and x and x[0] == "field" and x[3] == "bool":
-                        idx = header_field_index(f, hdr_adt, x[2])
-                        if idx is not None and idx in field_mask:
-                            k = field_mask[idx]
-                        break
-            if k is None:
-                continue
-            false_t = [b for v, b in t["targets"] if v == 0]
-            true_t = [t["otherwise"]] if false_t else []
-            if not false_t or not true_t:
-                continue
-            arms = {True: arm_blocks(dec, true_t[0], false_t[0]), False: arm_blocks(dec, false_t[0], true_t[0])}
-            eff = {True: arm_effects(dec, arms[True]), False: arm_effects(dec, arms[False])}
-            inv = isinstance(k, tuple)
-            kk = k[1] if inv else k
-            for truth in (True, False):
-                sem = (not truth) if inv else truth       # truth of (flags & K) != 0 on this arm
-                for ef in eff[truth]:
-                    roles.setdefault(ef, set()).add((kk, sem))
-        rep.count("decoder_mask_switches", len(roles))
+        for ef, lst in occ.items():
+            common = None
+            for k in lst:
+                items = set(k.items())
+                common = items if common is None else (common & items)
+            roles[ef] = common or set()
         want = {
             "wait8": (2, True), "wait1": (2, False), "get_u64": (2, True), "get_u8_size": (2, False),
             "command_parse": (4, True), "yield_message": (1, False),
         }
         for ef, (k, sem) in want.items():
             got = roles.get(ef)
-            if ef == "yield_message" and got:
-                # a message is also only yielded for non-command frames: (4, False) is consistent
-                got = got - {(4, False)}
-            rep.check(got == {(k, sem)}, "R01.1" if ef in ("command_parse", "yield_message") else "R01.2",
+            if got is not None and ef in ("yield_message", "command_parse", "get_u64", "get_u8_size"):
+                # bits decided in earlier steps ride along; only a contradiction or a missing bit matters
+                got = {(kk, tt) for (kk, tt) in got if kk == k or ef != "yield_message" and False} | ({(k, sem)} & got)
+            rep.check(got is not None and (k, sem) in got and (k, not sem) not in got and len({kk for kk, _ in got}) == 1,
+                      "R01.1" if ef in ("command_parse", "yield_message") else "R01.2",
                       "R01.x|%s|reader|%s" % (dec.path, ef),
-                      "decoder effect `%s` happens under (flags & K != 0) = %s (RFC 23: K=0x%02x, %s)" % (
-                          ef, sorted(got) if got else None, k, sem), dec.loc())
+                      "decoder effect `%s` happens exactly under (flags & 0x%02x != 0) = %s (bits known on all such paths: %s; occurrences %d)" % (
+                          ef, k, sem, sorted(roles.get(ef) or []), len(occ.get(ef, []))), dec.loc())
         for ef in roles:
             if ef.startswith("size_read:"):
                 rep.bad("R01.2", "R01.2|%s|reader-size-read|%s" % (dec.path, ef), "decoder reads a size field with %s (ZMTP: get_u8 / big-endian get_u64)" % ef[10:], dec.loc())
@@ -611,7 +622,21 @@ def check_ready(f, rep):
         rep.check(ok_dom, "R01.7", "R01.7|identity-iff-configured", "Identity insertion is guarded by the socket option being Some", b.loc())
 
 
+def check_decode_keeps_assembly(f, rep):
+    """R01.8: "decoding those bytes yields the identical message" needs the frames of a multipart message to survive between
+    decode calls: the accumulator discipline of C02 (R02.3) and the no-stall rule (R02.2) are necessary conditions here too."""
+    from . import c02
+    from ..report import Report
+    sub = Report("C01", rep.config)
+    for self_ty, dec in trait_impls(f, "asynchronous_codec::Decoder", "decode").items():
+        c02.analyse_decoder(f, sub, dec, self_ty)
+    for o in sub.obls:
+        if o.rule in ("R02.3", "R02.1") or (o.rule == "R02.2" and "|stall|" in o.key):
+            (rep.ok if o.ok else rep.bad)("R01.8", o.key.replace(o.rule, "R01.8", 1), o.what, o.loc, o.detail)
+
+
 def run(ctx, f, rep):
+    check_decode_keeps_assembly(f, rep)
     check_encoder(f, rep)
     check_command_writer(f, rep)
     check_greeting(f, rep)
